@@ -575,8 +575,22 @@ func init() {
 		fr.w.ghostOut(s)
 		return Tuple{int64(len(s.b)), Iface{}}
 	})
+	reg("(*os.File).Stat", func(fr *frame, a []Value) Value {
+		fr.w.stub("(*os.File).Stat: fails (no terminal, not piped)")
+		return Tuple{Iface{}, fr.w.newError(fr, "stat: not available under gosym")}
+	})
+	reg("golang.org/x/term.IsTerminal", func(fr *frame, a []Value) Value { return false })
 	reg("(*os.File).Sync", func(fr *frame, a []Value) Value { return Iface{} })
 	reg("(*os.File).Fd", func(fr *frame, a []Value) Value { return int64(1) })
+}
+
+func (w *Worker) newError(fr *frame, msg string) Value {
+	if ep := w.prog.ImportedPackage("errors"); ep != nil {
+		if f := ep.Func("New"); f != nil {
+			return w.call(fr, 0, f, []Value{mkStr(msg)})
+		}
+	}
+	panic(engineError{"errors package not loaded"})
 }
 
 func nil2(f func(fr *frame, a []Value) Value) func(fr *frame, a []Value) Value { return f }
